@@ -10,3 +10,5 @@ import "sync"
 func simYield(point, arg string) {}
 
 func simYieldUnlocked(l sync.Locker, point string) {}
+
+func simConnHandlers(s *Service, conn Conn) {}
